@@ -47,6 +47,10 @@ type PF struct {
 	// Visit, if set, is called with the state set holding *before* each instruction of the root analysis.
 	Visit func(fn *ssa.Function, in ssa.Instruction, before StateSet)
 	boolMemo map[interface{}]StateSet
+	// DeepVisit: Visit is also called for the instructions of summarised callees, with the states of the call contexts
+	// reached from the root (union over contexts).
+	DeepVisit bool
+	deepSeen  map[*ssa.Function]StateSet
 }
 
 type pfExit struct {
@@ -193,6 +197,8 @@ func (p *PF) run(fn *ssa.Function, entry StateSet, visit func(fn *ssa.Function, 
 	work := []*ssa.BasicBlock{fn.Blocks[0]}
 	onWork := map[int]bool{0: true}
 	visited := map[int]bool{}
+	// edgeIn[b][i]: the states arriving at b from its i-th predecessor (for threading through flag tests)
+	edgeIn := map[int][]StateSet{}
 	for len(work) > 0 {
 		b := work[0]
 		work = work[1:]
@@ -204,6 +210,21 @@ func (p *PF) run(fn *ssa.Function, entry StateSet, visit func(fn *ssa.Function, 
 		}
 		for idx, succ := range b.Succs {
 			es := s
+			// jump threading: b only merges a boolean flag set to constants on its incoming edges and branches on it
+			// (`woken := false; select { case …: woken = true }; if !woken {…}`): each incoming edge continues to the successor
+			// its constant selects, instead of being merged with the others first
+			if consts, pol, ok := flagTestBlock(b); ok && len(edgeIn[b.Index]) == len(b.Preds) {
+				var t StateSet
+				for pi := range b.Preds {
+					if consts[pi] == nil || (*consts[pi] == pol) == (idx == 0) {
+						t |= edgeIn[b.Index][pi]
+					}
+				}
+				es = t
+				for _, instr := range b.Instrs {
+					es = p.step(fn, instr, es)
+				}
+			}
 			if len(b.Instrs) > 0 {
 				if iff, isIf := b.Instrs[len(b.Instrs)-1].(*ssa.If); isIf {
 					for _, g := range expandGuard(guard{cond: iff.Cond, val: idx == 0, blk: b}, 0) {
@@ -232,6 +253,14 @@ func (p *PF) run(fn *ssa.Function, entry StateSet, visit func(fn *ssa.Function, 
 					}
 				}
 			}
+			if edgeIn[succ.Index] == nil {
+				edgeIn[succ.Index] = make([]StateSet, len(succ.Preds))
+			}
+			for pi, pb := range succ.Preds {
+				if pb == b && (len(b.Succs) < 2 || b.Succs[0] != b.Succs[1] || pi == predIndexOf(succ, b, idx)) {
+					edgeIn[succ.Index][pi] |= es
+				}
+			}
 			if es|in[succ.Index] != in[succ.Index] || (!visited[succ.Index] && es != 0) {
 				in[succ.Index] |= es
 				if !onWork[succ.Index] {
@@ -250,6 +279,32 @@ func (p *PF) run(fn *ssa.Function, entry StateSet, visit func(fn *ssa.Function, 
 		for _, instr := range b.Instrs {
 			if visit != nil {
 				visit(fn, instr, s)
+				if p.DeepVisit {
+					if call, ok := instr.(*ssa.Call); ok {
+						if callee := staticCallee(&call.Call); callee != nil && callee.Blocks != nil && p.InScope != nil && p.InScope(callee) {
+							// the callee sees the states after this call's own instruction event
+							sc := s
+							if p.Instr != nil {
+								var out StateSet
+								s.each(func(q int) {
+									if ns, ok := p.Instr(fn, instr, q); ok {
+										out |= ns
+									} else {
+										out |= ss(q)
+									}
+								})
+								sc = out
+							}
+							if p.deepSeen == nil {
+								p.deepSeen = map[*ssa.Function]StateSet{}
+							}
+							if sc|p.deepSeen[callee] != p.deepSeen[callee] {
+								p.deepSeen[callee] |= sc
+								p.run(callee, p.deepSeen[callee], visit)
+							}
+						}
+					}
+				}
 			}
 			if r, ok := instr.(*ssa.Return); ok {
 				exits = append(exits, pfExit{r, s})
@@ -323,4 +378,72 @@ func (p *PF) boolExits(callee *ssa.Function, ridx int, val bool) StateSet {
 	}
 	p.boolMemo[k] = out
 	return out
+}
+
+// flagTestBlock: b consists of phis, (negations) and an If on one of its phis all of whose incoming values are boolean
+// constants. Returns the constant per predecessor (nil if not constant) and the polarity: the If's true edge is taken when the
+// flag equals pol.
+func flagTestBlock(b *ssa.BasicBlock) ([]*bool, bool, bool) {
+	if len(b.Instrs) == 0 || len(b.Succs) != 2 || len(b.Preds) < 2 {
+		return nil, false, false
+	}
+	iff, ok := b.Instrs[len(b.Instrs)-1].(*ssa.If)
+	if !ok {
+		return nil, false, false
+	}
+	v := iff.Cond
+	pol := true
+	for {
+		if u, ok := v.(*ssa.UnOp); ok && u.Op == token.NOT && u.Block() == b {
+			v = u.X
+			pol = !pol
+			continue
+		}
+		break
+	}
+	phi, ok := v.(*ssa.Phi)
+	if !ok || phi.Block() != b {
+		return nil, false, false
+	}
+	for _, in := range b.Instrs[:len(b.Instrs)-1] {
+		switch x := in.(type) {
+		case *ssa.Phi, *ssa.DebugRef:
+		case *ssa.UnOp:
+			if x.Op != token.NOT {
+				return nil, false, false
+			}
+		default:
+			return nil, false, false
+		}
+	}
+	consts := make([]*bool, len(phi.Edges))
+	any := false
+	for i, e := range phi.Edges {
+		if k, ok := e.(*ssa.Const); ok && k.Value != nil && k.Value.Kind() == constant.Bool {
+			bv := constant.BoolVal(k.Value)
+			consts[i] = &bv
+			any = true
+		}
+	}
+	return consts, pol, any
+}
+
+func predIndexOf(succ, pred *ssa.BasicBlock, succIdx int) int {
+	// when a block reaches succ through both of its edges the i-th occurrence of pred in succ.Preds is the i-th edge
+	n := 0
+	for i := 0; i < succIdx; i++ {
+		if pred.Succs[i] == succ {
+			n++
+		}
+	}
+	k := 0
+	for pi, pb := range succ.Preds {
+		if pb == pred {
+			if k == n {
+				return pi
+			}
+			k++
+		}
+	}
+	return -1
 }
